@@ -15,8 +15,9 @@ Representation maps:
   `CompareAny` ↔ `cmpAny`: hypothesis `hcmp` of `C06_tie_sortCmp` (the reflect-based function is
       compared with `cmpAny` by the correspondence harness, not here)
 -/
-import SemaModel.C06.Model
+import SemaModel.C06.Props
 import SemaModel.Generated.Compare
+import SemaModel.Generated.Paging
 namespace Sema.C06
 open Sema
 
@@ -178,5 +179,44 @@ theorem C06_tie_sort {α : Type} (sortFunc : {α : Type} → List α → (α →
     (rs : List (Gen.Compare.SearchResult α)) (opts : List Gen.Compare.SortOption) :
     Gen.Compare.SortSearchResults sortFunc cmp rs opts =
       sortFunc rs (fun a b => (Gen.Compare.SortSearchResults_loop1 cmp a b opts).finish (fun _ => 0)) := rfl
+
+
+/-! ### offset / limit
+
+`SemaModel/Generated/Paging.lean` is the run of statements at the end of `Shard.SearchPoints`
+(`if searchRequest.Limit == 0 { … }` … `finalResults = finalResults[start:end]`) translated as a
+function of `searchRequest` and `finalResults`, with Go's wrapping `int` arithmetic (`Go.wrap64` at
+every `+` / `-`; no no-overflow assumption).  A slice expression out of range panics in Go; the
+translation is total (`Go.sliceI`), the model's `goSlice` says when it would panic. -/
+
+theorem Tie.wrap64_eq (x : Int) : Go.wrap64 x = wrap64 x := rfl
+
+/-- **the paging statements of `Shard.SearchPoints` are the model's `pageRepaired`**: for every
+offset and limit (any `Int`: the arithmetic is the same on both sides), whenever the model says the
+slice expression does not panic, the translated statements return the model's page. -/
+theorem C06_tie_page (l : List Gen.Paging.SearchResult) (off lim : Int) (r : List Gen.Paging.SearchResult)
+    (h : pageRepaired l off lim = .ok r) :
+    Gen.Paging.SearchPoints_paging ⟨off, lim⟩ l = r := by
+  unfold pageRepaired goSlice at h
+  unfold Gen.Paging.SearchPoints_paging
+  simp only [Tie.wrap64_eq, Go.len, Go.sliceI]
+  by_cases hl : lim = 0
+  · subst hl
+    simp only [if_true, beq_self_eq_true] at h ⊢
+    split at h
+    · simpa using (Except.ok.inj h)
+    · cases h
+  · have hb : (lim == 0) = false := by simpa using hl
+    simp only [hl, if_false, hb, Bool.false_eq_true] at h ⊢
+    split at h
+    · simpa using (Except.ok.inj h)
+    · cases h
+
+/-- non-vacuity, and the connection with `C06_page_repaired`: for in-range requests the model never
+panics, so the translated statements return `(rows.drop offset).take limit'` -/
+theorem C06_tie_page_value (l : List Gen.Paging.SearchResult) (off lim : Nat)
+    (hoff : off < 2 ^ 63) (hlim : lim < 2 ^ 63) (hlen : l.length < 2 ^ 63) :
+    Gen.Paging.SearchPoints_paging ⟨off, lim⟩ l = (l.drop off).take (if lim = 0 then l.length else lim) :=
+  C06_tie_page l off lim _ (C06_page_repaired l off lim hoff hlim hlen)
 
 end Sema.C06
